@@ -387,8 +387,17 @@ static int janet_check_liveref(Janet x) {
         case JANET_SYMBOL:
         case JANET_KEYWORD:
             return janet_gc_reachable(janet_string_head(janet_unwrap_string(x)));
-        case JANET_ABSTRACT:
-            return janet_gc_reachable(janet_abstract_head(janet_unwrap_abstract(x)));
+        case JANET_ABSTRACT: {
+            void *abst = janet_unwrap_abstract(x);
+#ifdef JANET_EV
+            /* Threaded abstracts are on no block list and their mark bit means nothing: whether one was
+             * visited in this cycle is recorded in the threaded_abstracts table (see janet_mark_abstract) */
+            if ((janet_abstract_head(abst)->gc.flags & JANET_MEM_TYPEBITS) == JANET_MEMORY_THREADED_ABSTRACT) {
+                return janet_truthy(janet_table_rawget(&janet_vm.threaded_abstracts, x));
+            }
+#endif
+            return janet_gc_reachable(janet_abstract_head(abst));
+        }
         case JANET_TUPLE:
             return janet_gc_reachable(janet_tuple_head(janet_unwrap_tuple(x)));
         case JANET_STRUCT:
@@ -402,6 +411,22 @@ void janet_sweep() {
     JanetGCObject *previous = NULL;
     JanetGCObject *current = janet_vm.weak_blocks;
     JanetGCObject *next;
+
+#ifdef JANET_EV
+    /* The table behind ev/all-tasks does not keep its fibers alive: forget the ones about to be freed */
+    {
+        JanetTable *tasks = &janet_vm.active_tasks;
+        for (int32_t i = 0; i < tasks->capacity; i++) {
+            JanetKV *kv = tasks->data + i;
+            if (janet_checktype(kv->key, JANET_FIBER) && !janet_check_liveref(kv->key)) {
+                tasks->count--;
+                tasks->deleted++;
+                kv->key = janet_wrap_nil();
+                kv->value = janet_wrap_false();
+            }
+        }
+    }
+#endif
 
     /* Sweep weak heap to drop weak refs */
     while (NULL != current) {
